@@ -18,7 +18,7 @@ one() {
   git -C /repo worktree add --detach -f $w/repo HEAD >/dev/null 2>&1 || { echo "$name: WORKTREE FAILED"; return; }
   if ! git -C $w/repo apply "$d/patch.diff" 2>/dev/null; then echo "$name: PATCH DOES NOT APPLY"; git -C /repo worktree remove --force $w/repo; rm -rf $w; return; fi
   mkdir -p $w/verif/bin
-  for f in baseline known-findings.json harness env.sh check engine MANIFEST.json; do cp -r $V/$f $w/verif/; done
+  for f in baseline known-findings.json harness env.sh check MANIFEST.json; do cp -rp $V/$f $w/verif/; done
   cp $V/bin/slipvc $w/verif/bin/
   res=$(SLIPVC_REPO=$w/repo SLIPVC_VERIF=$w/verif $w/verif/check $prop ${TIER:-quick} 2>&1)
   n=$(echo "$res" | grep -c '^VIOLATION')
